@@ -206,6 +206,7 @@ CATALOGUE = [
     ("C14", "c14-zero-trip-body-unchecked", AN, "        dry_run = not iteration_values and bool(node.body)\n", "        dry_run = False\n", 1, "fire", "C14-R4"),
     ("C16", "c16-iterator-without-value", AN, "value_type=IntValue(value=value),", "value_type=IntValue(),", 1, "fire", "C16-R12"),
     ("C10", "c10-suppressed-constant-materialised", SA, "        if isinstance(entry.producer, IRConst) and not entry.producer.signals:\n            # A plain constant needs no combinator for that: its readers take the literal\n            return False\n", "", 1, "fire", "plain constant"),
+    ("C12", "c12-merge-ids-as-strings", CP, "            merge_list = sorted(\n                source_merge_edges.keys(),\n                key=lambda merge_id: [\n                    int(part) if part.isdigit() else part\n                    for part in re.split(r"(\\d+)", merge_id)\n                ],\n            )\n", "            merge_list = sorted(source_merge_edges.keys())\n", 1, "fire", "C12-R12"),
     ("C10", "c10-remainder-sign", "dsl_compiler/src/common/int32.py", "    return left - right * trunc_div(left, right)", "    remainder = abs(left) % abs(right)\n    return -remainder if (left < 0) != (right < 0) else remainder", 1, "fire", "C10-R17"),
     ("C11", "c11-remainder-sign", "dsl_compiler/src/common/int32.py", "    return left - right * trunc_div(left, right)", "    remainder = abs(left) % abs(right)\n    return -remainder if (left < 0) != (right < 0) else remainder", 1, "fire", "witness"),
 ]
